@@ -4,8 +4,8 @@
 def uses(op):
     """Names of the values an operation reads."""
     out = []
-    for k in ("a", "b"):
-        if k in op:
+    for k in ("a", "b", "point", "ld"):
+        if op.get(k):
             out.append(op[k])
     out.extend(op.get("parts", ()))
     if op["op"] == "subs":
